@@ -177,12 +177,6 @@ theorem parseFloatStr_noPanic (s : Bytes) : NoPanicRes (parseFloatStr s) := by
 theorem convAny_noPanic (v : GoVal) : NoPanicRes (convAny v) := by
   unfold convAny; split <;> trivial
 
-theorem convAnyAll_noPanic : ∀ xs : List GoVal, NoPanicRes (convAnyAll xs)
-  | [] => trivial
-  | x :: xs => by
-    rw [convAnyAll]
-    exact NoPanicRes.bind (convAny_noPanic x) (fun _ => NoPanicRes.bind (convAnyAll_noPanic xs) (fun _ => trivial))
-
 /-- `values.Convert` never panics (a failed conversion is the *error* `TypeError`; the panic of
 `MustConvert` is the recovered `err typeErr` of the call layer) -/
 theorem convert_noPanic (v : GoVal) (t : ParamTy) : NoPanicRes (convert v t) := by
@@ -207,11 +201,10 @@ theorem convert_noPanic (v : GoVal) (t : ParamTy) : NoPanicRes (convert v t) := 
     · exact NoPanicRes.bind (sprint_noPanic _) (fun _ => trivial)
   · split
     · trivial
-    · trivial
     · split
       · trivial
       · split <;> trivial
-    all_goals first | trivial | exact NoPanicRes.bind (convAnyAll_noPanic _) (fun _ => trivial)
+    all_goals trivial
   · split <;> trivial
 
 /-! ### the result of a successful conversion has the target type -/
@@ -255,7 +248,6 @@ theorem convert_hasTy {v : GoVal} {t : ParamTy} {c : GoVal} (h : convert v t = .
     · cases h
     · obtain ⟨n, _, h⟩ := Res.bind_eq_ok h; cases h; exact ⟨_, rfl⟩
   · split at h
-    · cases h; exact ⟨_, rfl⟩
     · cases h; exact ⟨_, rfl⟩
     · split at h
       · cases h
